@@ -134,6 +134,14 @@ func (c *Client) handleAcceptVersion(msg protocol.Message) error {
 		)
 	}
 	msgAcceptVersion := msg.(*MsgAcceptVersion)
+	// The peer may only accept a version that we proposed
+	proposedVersionData, ok := c.config.ProtocolVersionMap[msgAcceptVersion.Version]
+	if !ok {
+		return fmt.Errorf(
+			"peer accepted protocol version %d that was not proposed",
+			msgAcceptVersion.Version,
+		)
+	}
 	protoVersion := protocol.GetProtocolVersion(msgAcceptVersion.Version)
 	if protoVersion.NewVersionDataFromCborFunc == nil {
 		return fmt.Errorf(
@@ -146,6 +154,21 @@ func (c *Client) handleAcceptVersion(msg protocol.Message) error {
 	)
 	if err != nil {
 		return err
+	}
+	if versionData == nil {
+		return fmt.Errorf(
+			"peer accepted protocol version %d without version data",
+			msgAcceptVersion.Version,
+		)
+	}
+	// The accepted version data must be for our own network
+	if proposedVersionData != nil &&
+		versionData.NetworkMagic() != proposedVersionData.NetworkMagic() {
+		return fmt.Errorf(
+			"peer accepted network magic %d, expected %d",
+			versionData.NetworkMagic(),
+			proposedVersionData.NetworkMagic(),
+		)
 	}
 	return c.config.FinishedFunc(
 		c.callbackContext,
